@@ -681,6 +681,7 @@ func (c *Channel) processInFlightQueue(t int64) bool {
 			goto exit
 		}
 		dirty = true
+		verifPoint("scan-inflight:after-peek")
 
 		_, err := c.popInFlightMessage(msg.clientID, msg.ID)
 		if err != nil {
